@@ -95,6 +95,16 @@ func zzCheckRestored(orig *zzCluster, st *models.MemStore, b zzBackupGhost, issu
 	zzC = c
 	defer func() { zzC = orig }()
 	v := b.version
+	if rt.Choose("restored-node-restarted-before-its-first-add", 2) == 1 {
+		// the operator starts the restored node, stops it without adding anything, starts it again
+		r.Close(true)
+		rs.Closed = false
+		if !rt.NoPanic(func() { r = zzOpenNode(rs) }, label+":second-start-on-restored-store") {
+			return
+		}
+		c.nodes[0] = r
+		rt.Reach("restored-node-restarted-before-its-first-add")
+	}
 	rt.Assert(r.balloon.Version() == v+1, label+":restored-log-is-at-the-backup-version")
 	// proves membership and consistency for the first v+1 events against the snapshots originally issued
 	snap := &balloon.Snapshot{HistoryDigest: issued[v].HistoryDigest, HyperDigest: issued[v].HyperDigest, Version: v}
@@ -188,6 +198,17 @@ func ZZC16Restore() {
 	var issued []*balloon.Snapshot
 	var digs []hashing.Digest
 	var ghosts []zzBackupGhost
+	// a few requests before the script proper (no choices): the log the backups are taken on is
+	// not a brand-new one, its applied index is well above what a fresh Raft log starts with
+	for k := 0; k < rt.Param("PRE", 0); k++ {
+		snaps, err := zzAddBulk(n, zzEvents(byte(0x08+k), 1))
+		if err != nil || len(snaps) != 1 {
+			rt.Assert(false, "add-acknowledged")
+			return
+		}
+		issued = append(issued, snaps[0])
+		digs = append(digs, n.hasherF().Do(zzEvents(byte(0x08+k), 1)[0]))
+	}
 	for k := 0; k <= entries; k++ {
 		if len(issued) > 0 && len(ghosts) < maxBackups && rt.Choose(fmt.Sprintf("backup-before%d", k), 2) == 1 {
 			var err error
